@@ -65,3 +65,25 @@ def c16(ctx):
     cap.cap2(ctx)
     return ctx.finish(explanation="capability closure over the whole-program call graph (msi+cfb) with slot-gated dyn dispatch; "
                       "every function in the closure is an obligation 'contains no write to the medium'")
+
+
+def panic_module(ctx, rule, module_files, entries_pred, label):
+    """PANIC restricted to sites in given source files, reachable from entries"""
+    prog = ctx.prog
+    inv = inventory(prog)
+    ctx.rule(rule, PANIC_TEXT)
+    entries = [f for f in prog.fns.values() if f.crate in ("msi", "msi_ffi") and entries_pred(f)]
+    n = inv.run(ctx, rule, entries, only=lambda f: f.file in module_files, label=label)
+    ctx.assume(EXT_ASSUME)
+    return n
+
+
+@prop("C14")
+def c14(ctx):
+    from .rules import codepage
+    codepage.run(ctx)
+    n = panic_module(ctx, "PANIC(codepage)", ("src/internal/codepage.rs",),
+                     lambda f: f.file == "src/internal/codepage.rs" and f.exported, "CodePage::{encode,decode,id,from_id,name}")
+    ctx.floor("PANIC(codepage)", "potential panic sites in codepage.rs", n, 5)
+    return ctx.finish(explanation="match tables of CodePage::{id,from_id,encoding} recovered from MIR and compared with each other and "
+                      "with a frozen Windows reference; dominance check of the ASCII gate; constants of the replacement path")
